@@ -656,6 +656,22 @@ Fixpoint c21_first_failure (ev : env) (s : st) (ops : list op) : option (option 
       else Some (c21_classify ev s o)
   end.
 
+(* the state after a history *)
+Fixpoint final (ev : env) (s : st) (ops : list op) : st :=
+  match ops with
+  | [] => s
+  | o :: ops' => final ev (st_of (step ev s o)) ops'
+  end.
+
+(* the C21 property at every step of the model's run *)
+Fixpoint c21_run_ok (ev : env) (s : st) (ops : list op) : bool :=
+  match ops with
+  | [] => true
+  | o :: ops' =>
+      let r := step ev s o in
+      c21_step_ok s o (err_of r) (st_of r) (model_view (st_of r)) && c21_run_ok ev (st_of r) ops'
+  end.
+
 (* ---------- client assumptions of C21 (decidable) ---------- *)
 Definition id_unused (s : st) (id : N) : bool :=
   negb (id =? 0) &&
